@@ -56,6 +56,7 @@ const (
 	c08Loading
 	c08Err
 	c08Blackhole
+	c08BadReply
 )
 
 type c08Server struct {
@@ -88,6 +89,13 @@ func (s *c08Server) hook(c *server.Peer, cmd string, args ...string) bool {
 	case c08Err:
 		c.WriteError("ERR max number of clients reached")
 		return true
+	case c08BadReply:
+		// the script "answers" with something that is not its 0/1 (a proxy or a
+		// wrong script behind the key); every other command works
+		if cmd == "EVAL" {
+			c.WriteInline("OK")
+			return true
+		}
 	case c08Blackhole:
 		// accepted, never answered: the command (and this connection's server
 		// goroutine) waits until the outage ends and is then dropped unexecuted;
